@@ -798,8 +798,8 @@ Definition iso_hdr_case_ok (h pb : Z) : bool :=
   let x := iso_hdr 0 pb h in
   u16_ok x && (Z.land x 4095 =? h) && (Z.land (Z.shiftr x 12) 3 =? pb) && (Z.land (Z.shiftr x 14) 1 =? 0).
 Definition iso_info_case_ok (l : Z) : bool :=
-  let w := Z.lor l (Z.shiftl 0 15) in
-  u16_ok w && (Z.land w 4095 =? l) && (Z.land (Z.shiftr w 15) 1 =? 0).
+  let w := Z.lor l (Z.shiftl 0 14) in
+  u16_ok w && (Z.land w 4095 =? l) && (Z.land (Z.shiftr w 14) 3 =? 0).
 
 Lemma iso_hdr_all_ok :
   forallb (fun h => forallb (fun pb => iso_hdr_case_ok h pb) (zrange 4)) (zrange 4096) = true.
@@ -835,7 +835,7 @@ Proof.
     assert (u16_ok len = true) as -> by (unfold u16_ok; lia). cbn [andb].
     eexists. split; [reflexivity|].
     pose proof (rd16_le16 (iso_hdr 0 pb h)) as R1. pose proof (rd16_le16 len) as R2.
-    pose proof (rd16_le16 s) as R3. pose proof (rd16_le16 (Z.lor l (Z.shiftl 0 15))) as R4.
+    pose proof (rd16_le16 s) as R3. pose proof (rd16_le16 (Z.lor l (Z.shiftl 0 14))) as R4.
     unfold le16 in *. cbn [app iso_from_bytes]. rewrite R1, A2, A3, A4. cbn [Z.eqb].
     assert (Z.land pb 1 =? 0 = true) as -> by (destruct Hpb as [-> | ->]; reflexivity).
     rewrite R2, R3, R4, B2, B3. reflexivity.
